@@ -93,7 +93,7 @@ def run(ctx):
         if t in ("u64", "i64"):
             res.check(not rg and bool(b.calls_to(r"Ranged[IU]64ValueParser::new$")), "R4.2", "factory-range|" + t, b.where(), "full %s range (no narrowing)" % t, "value_parser!(%s) narrows the range" % t)
             continue
-        res.floor("R4.2", "range call in value_parser!(%s)" % t, len(rg), 1)
+        require(fx, res, "R4.2", "factory-range|" + t, b, r"Ranged[IU]64ValueParser::range$", len(rg), 1, "value_parser!(%s) no longer restricts the parser to the type's range" % t)
         for c in rg:
             e = expr(b, c.args[1])
             m = re.fullmatch(r"new\(into\((-?\d+)\),into\((-?\d+)\)\)", e)
